@@ -199,6 +199,16 @@ def observe_arith(fx, np, props, op, tx, ty, cxs, cys, route='operator', sizing=
                 kw['out'] = T
             elif target == 'out_like':
                 kw['out_like'] = T
+        # UNRELATED objects derived from the operands (like=, an element view), reconfigured: nothing of that may reach the operands
+        try:
+            o_ = fx.Fxp(0.0, like=X, op_sizing='same', rounding='ceil', overflow='wrap')
+            o_.config.op_method = 'repr'
+            if np.ndim(Y.val) >= 1 and np.size(Y.val):
+                e_ = Y[0]
+                e_.config.op_sizing = 'smallest'
+                e_.config.overflow = 'wrap'
+        except Exception:
+            pass
         if template:          # a class-level template of another format / signedness / modes is active while the operation runs
             base['route'] = base['route'] + '/template'
             fx.Fxp.template = fx.Fxp(None, bool(template[0]), template[1], template[2], rounding='ceil', overflow='wrap')
